@@ -118,16 +118,18 @@ theorem marksL_far (plus : Bool) (n i : Int) (ws : Bool) (L : List Interval) (lo
     simp only [marksL, List.flatMap_cons, this, List.nil_append]
     exact ih iv.stop h5 (by omega)
 
+/-- the opening mark of the first remaining interval, if it starts at `i` -/
+def openMark (i : Int) (ws : Bool) : List Interval → List Char
+  | [] => []
+  | iv :: _ => if ws = true ∧ iv.start = i then '(' :: (if iv.ambiguous then ['?'] else []) else []
+
 /-- no interval is open: only the first remaining interval can start at `i` -/
 theorem marksL_closed (plus : Bool) (n i : Int) (ws : Bool) (L : List Interval)
-    (h : canonIntervalList n i L = true) :
-    marksL plus i ws L =
-      match L with
-      | [] => []
-      | iv :: _ => if ws = true ∧ iv.start = i then '(' :: (if iv.ambiguous then ['?'] else []) else [] := by
+    (h : canonIntervalList n i L = true) : marksL plus i ws L = openMark i ws L := by
   cases L with
   | nil => rfl
   | cons iv t =>
+    simp only [openMark]
     simp only [canonIntervalList, Bool.and_eq_true, decide_eq_true_eq] at h
     obtain ⟨⟨⟨⟨h1, h2⟩, h3⟩, h4⟩, h5⟩ := h
     have ht := marksL_far plus n i ws t iv.stop h5 (by omega)
@@ -244,6 +246,7 @@ theorem marks_closed (plus : Bool) (n i : Int) (acc : Annotation) (hlen : Int.of
   cases L with
   | nil => exact ⟨none, rfl, Or.inl ⟨rfl, rfl⟩⟩
   | cons iv t =>
+    simp only [openMark]
     have hL' := hL
     simp only [canonIntervalList, Bool.and_eq_true, decide_eq_true_eq] at hL'
     obtain ⟨⟨⟨⟨h1, h2⟩, h3⟩, h4⟩, h5⟩ := hL'
